@@ -251,7 +251,7 @@ func IsObjectNameValid(name string) bool {
 			return false
 		}
 	}
-	return !strings.Contains(name, "\x00") && !backend.IsReservedKey(name)
+	return !strings.Contains(name, "\x00") && !backend.IsReservedKey(name) && !backend.IsAliasedKey(name)
 }
 
 // IsPathComponentValid reports whether an identifier supplied by the client
